@@ -1,8 +1,8 @@
 SPECIFICATION Spec
 CONSTANTS
   Bytes <- MC_Bytes
-  MaxLen = 5
-  MaxChunk = 5
+  MaxLen = 4
+  MaxChunk = 3
   DoExport = TRUE
 INVARIANTS CarryOk Streaming Final ExportDone
 VIEW View
